@@ -36,6 +36,8 @@ def make_plan(seed: int, tier: str, opts: dict) -> dict:
     if do_compiled:
         cc = dict(mode=r.choice(compiled.MODES), prune=r.random() < 0.5, api=r.choice(["rollout_carry", "run_jit", "gym_jit"]),
                   record={f: r.random() < 0.6 for f in FIELDS})
+    for ep in eps:
+        ep["until_active"] = True
     return dict(spec=spec, seed=seed, episodes=eps, clock="sim", line_rate=0.0, compile=cc)
 
 
